@@ -8,7 +8,7 @@ namespace Petl.Snapshot
 open Petl.Gen
 
 def expectedC01 : List (String × String) := [
-  ("file:comparison.py", "17971f67ee946013"),
+  ("file:comparison.py", "c46d05a1308c92ce"),
   ("file:config.py", "142bde514c82c29d"),
   ("file:io/db.py", "29a8207a5d7ac50e"),
   ("file:io/json.py", "9a87ae69473e052e"),
